@@ -303,17 +303,53 @@ def queries(h, k):
     return out
 
 
+def build_stmt(h, k, q):
+    """the statement of query q at class k (built once per hierarchy, reused for every data set); returns
+    (stmt, flags)"""
+    K = h.classes[k]
+    H = h.Holder
+    kind = q[0]
+    if kind in ("select", "select+expire"):
+        return select(K).order_by(K.id)
+    if kind == "wp":
+        sub = q[1] if q[1] == "*" else [h.classes[i] for i in q[1]]
+        wp = with_polymorphic(K, sub, flat=q[2] == "flat", aliased=q[2] == "aliased")
+        return select(wp).order_by(wp.id)
+    if kind == "selectin_poly":
+        return select(K).options(selectin_polymorphic(K, [h.classes[i] for i in q[1]])).order_by(K.id)
+    if kind == "of_type_join":
+        return select(K).join_from(H, H.items.of_type(K) if k else H.items).where(H.id == 1).order_by(K.id)
+    if kind == "of_type_join_wp":
+        wp = with_polymorphic(K, [h.classes[i] for i in q[1]], flat=True)
+        return select(wp).join_from(H, H.items.of_type(wp)).where(H.id == 1).order_by(wp.id)
+    if kind == "rel":
+        strat, sub = q[1], q[2]
+        target = H.items
+        if sub is not None:
+            wp = with_polymorphic(K, "*" if sub == "*" else [h.classes[i] for i in sub], flat=True)
+            target = H.items.of_type(wp)
+        stmt = select(H).order_by(H.id)
+        if strat != "lazy":
+            stmt = stmt.options(dict(selectin=selectinload, joined=joinedload, subquery=subqueryload)[strat](target))
+        return stmt
+    return None
+
+
 def run_query(h, eng, k, q, rows):
     """returns (kind, detail) or None"""
     K = h.classes[k]
     members = set([k] + h.desc[k])
     exp = [r for r in rows if r["cls"] in members]
     where = "%s at C%d" % (qstr(q), k)
+    cache = h.__dict__.setdefault("_stmts", {})
+    if (k, q) not in cache:
+        cache[(k, q)] = build_stmt(h, k, q)
+    stmt = cache[(k, q)]
     sess = Session(eng)
     try:
         kind = q[0]
         if kind in ("select", "select+expire"):
-            objs = sess.execute(select(K).order_by(K.id)).scalars().all()
+            objs = sess.execute(stmt).scalars().all()
             p = verify_list(h, objs, exp, where)
             if p or kind == "select":
                 return p
@@ -333,36 +369,14 @@ def run_query(h, eng, k, q, rows):
                 elif o is not None:
                     return "wrong-rows", "%s: get(C%d, %d) returned %s for a row of class C%d" % (where, k, r["id"], type(o).__name__, r["cls"])
             return None
-        if kind == "wp":
-            sub = q[1] if q[1] == "*" else [h.classes[i] for i in q[1]]
-            wp = with_polymorphic(K, sub, flat=q[2] == "flat", aliased=q[2] == "aliased")
-            return verify_list(h, sess.execute(select(wp).order_by(wp.id)).scalars().all(), exp, where)
-        if kind == "selectin_poly":
-            stmt = select(K).options(selectin_polymorphic(K, [h.classes[i] for i in q[1]])).order_by(K.id)
+        if kind in ("wp", "selectin_poly"):
             return verify_list(h, sess.execute(stmt).scalars().all(), exp, where)
-        if kind == "of_type_join":
-            H = h.Holder
+        if kind in ("of_type_join", "of_type_join_wp"):
             exp1 = [r for r in exp if r["holder_id"] == 1]
-            stmt = select(K).join_from(H, H.items.of_type(K) if k else H.items).where(H.id == 1).order_by(K.id)
-            return verify_list(h, sess.execute(stmt).scalars().all(), exp1, where)
-        if kind == "of_type_join_wp":
-            H = h.Holder
-            exp1 = [r for r in exp if r["holder_id"] == 1]
-            wp = with_polymorphic(K, [h.classes[i] for i in q[1]], flat=True)
-            stmt = select(wp).join_from(H, H.items.of_type(wp)).where(H.id == 1).order_by(wp.id)
             return verify_list(h, sess.execute(stmt).scalars().all(), exp1, where)
         if kind == "rel":
-            H = h.Holder
-            strat, sub = q[1], q[2]
-            target = H.items
-            if sub is not None:
-                wp = with_polymorphic(K, "*" if sub == "*" else [h.classes[i] for i in sub], flat=True)
-                target = H.items.of_type(wp)
-            stmt = select(H).order_by(H.id)
-            if strat != "lazy":
-                stmt = stmt.options(dict(selectin=selectinload, joined=joinedload, subquery=subqueryload)[strat](target))
             res = sess.execute(stmt)
-            if strat == "joined":
+            if q[1] == "joined":
                 res = res.unique()
             for hobj in res.scalars().all():
                 p = verify_list(h, list(hobj.items), [r for r in rows if r["holder_id"] == hobj.id], "%s holder %d" % (where, hobj.id))
